@@ -342,6 +342,21 @@ func vfC08Point(p vfC08Pipe, n, content int, payload []byte, thorough bool, pars
 		res.fail("writer-apply/mutates-its-input", mk(nil))
 	}
 	storedCopy := append([]byte(nil), stored...)
+	// the encoded chunk must be the caller's: encoding another payload (same size class, then a
+	// smaller one) with the same pipeline object must not change the bytes returned earlier
+	if n > 0 && n <= 65537 {
+		other := make([]byte, n)
+		for i := range other {
+			other[i] = payload[i] ^ 0x5A
+		}
+		if _, err := fp.Apply(other); err == nil {
+			_, _ = fp.Apply(other[:(n+1)/2])
+			if !bytes.Equal(stored, storedCopy) {
+				res.fail("writer-apply/result-changed-by-a-later-apply", mk(nil))
+				stored = append([]byte(nil), storedCopy...)
+			}
+		}
+	}
 
 	// (1) writer's own inverse
 	back, err := fp.Remove(append([]byte(nil), stored...))
@@ -421,6 +436,49 @@ func vfC08Point(p vfC08Pipe, n, content int, payload []byte, thorough bool, pars
 
 	// (3) corruption
 	if !p.hasF {
+		// without a checksum stage a damaged chunk may decode to anything, but both decoders
+		// must come back with a value or an error: every truncation of the stored chunk and
+		// (for pipelines that contain the LZF codec, whose decoder is the repository's own
+		// code) every stored byte set to each of {00, 1F, 20, E0, FF} — the control bytes of
+		// the format — are decoded under a panic guard
+		if n > 0 && n <= 4097 && len(p.items) <= 2 {
+			try := func(what string, buf []byte, extra map[string]any) {
+				for _, d := range []struct {
+					name string
+					f    func([]byte) ([]byte, error)
+				}{{"writer", fp.Remove}, {"reader", cm.ApplyFilters}} {
+					func() {
+						defer func() {
+							if r := recover(); r != nil {
+								e := mk(extra)
+								e["panic"] = fmt.Sprint(r)
+								res.fail(fmt.Sprintf("decode-%s/%s/%s/panic", what, p.kinds, d.name), e)
+							}
+						}()
+						_, _ = d.f(append([]byte(nil), buf...))
+					}()
+					res.variants++
+				}
+			}
+			for cut := 0; cut < len(stored); cut++ {
+				try("truncated", stored[:cut], map[string]any{"cut_at": cut, "stored_len": len(stored)})
+			}
+			if strings.Contains(p.kinds, "l") {
+				buf := append([]byte(nil), stored...)
+				for i := range buf {
+					orig := buf[i]
+					for _, v := range []byte{0x00, 0x1F, 0x20, 0xE0, 0xFF} {
+						if v == orig {
+							continue
+						}
+						buf[i] = v
+						try("byte", buf, map[string]any{"position": i, "value": v, "stored_len": len(stored)})
+					}
+					buf[i] = orig
+				}
+			}
+			res.count("unprotected_decoder_robustness_points", 1)
+		}
 		return res
 	}
 	fIdx := 0
